@@ -89,7 +89,7 @@ macro_rules! count_zeros {
             if j < tz {
                 kani::assert((x >> j) & 1 == 0, "OBS std_spec.count_zeros: the bits below the trailing one are zero");
             }
-            kani::cover!(x != 0 && lz > 3 && tz > 3, "std_spec.count_zeros reachable");
+            kani::cover!(x != 0 && lz >= 1 && tz >= 1, "std_spec.count_zeros reachable");
         }
     };
 }
